@@ -134,6 +134,70 @@ def p1_case(part, row, case):
     part.nontriv((sk, case["zkind"], tuple(case["centre"]), case.get("frame")))
 
 
+def special_position_cases(part, seed):
+    """
+    molecules ON special positions (Z' < 1): the asymmetric unit holds only part of the molecule and the unit-cell molecule is
+    assembled from images under several operations - acetylene (H-C#C-H) and Cl-C#C-H... centred on inversion centres /
+    two-fold axes.  Oracle as for general positions: the P1 / supercell description is the same arrangement.
+    """
+    table = {(r["number"], r["choice"]): r for r in symm.load_table()}
+    # (setting, fractional centre that is an inversion centre or lies on a 2-fold axis of that setting)
+    sites = [((2, ""), (0.0, 0.0, 0.0)), ((2, ""), (0.5, 0.0, 0.5)), ((14, "b1"), (0.0, 0.0, 0.0)), ((14, "b1"), (0.5, 0.5, 0.0)),
+             ((15, "b1"), (0.25, 0.25, 0.0)), ((61, ""), (0.0, 0.0, 0.0)), ((5, "b1"), (0.0, 0.31, 0.0)), ((18, ""), (0.0, 0.0, 0.37))]
+    for (key, centre) in sites:
+        row = table[key]
+        ops = [symm.decode(c) for c in row["symops"]]
+        for ci, cell in enumerate(lattice.compatible_cells(*key)[:2]):
+            cell = tuple(x * 1.6 for x in cell[:3]) + tuple(cell[3:])
+            M = lattice.cell_matrix(*cell)
+            Mi = np.linalg.inv(M)
+            for oi, axis in enumerate(((1.0, 0.35, 0.2), (0.2, 1.0, -0.4))):
+                u = np.array(axis) / np.linalg.norm(axis)
+                if key[0] in (5, 18):
+                    # on a two-fold axis (b for C2, c for P2_12_12): the molecular axis must be perpendicular to it
+                    ax = M[1] / np.linalg.norm(M[1]) if key[0] == 5 else M[2] / np.linalg.norm(M[2])
+                    u = u - np.dot(u, ax) * ax
+                    u /= np.linalg.norm(u)
+                c0 = np.array(centre) @ M
+                # half of Cl-C#C-Cl' ... use H-C#C-H with distinct elements per half: asymmetric unit = (C, H) or (C, Cl)
+                for syms, ds in ((["C", "H"], (0.60, 1.66)), (["C", "Cl"], (0.60, 2.24))):
+                    frac = np.array([c0 + d * u for d in ds]) @ Mi
+                    if xtal.image_separation(ops, frac, M) < 0.9:
+                        part.skip("special-position molecule crowded by its images")
+                        continue
+                    case = {"kind": "special", "setting": list(key), "centre": list(centre), "cell": ci, "axis": oi, "symbols": syms}
+                    c = xtal.make_crystal(key[0], key[1], cell, syms, frac)
+                    try:
+                        n_mols = len(c.unit_cell_molecules())
+                    except Exception as e:
+                        part.fail("special-raise", "unit_cell_molecules raised %r for a molecule on a special position of %s" % (e, key), case)
+                        continue
+                    X = arrangement(c)
+                    dens = float(c.density)
+                    for size in ((1, 1, 1), (2, 1, 1), (1, 2, 1)):
+                        for route in ("as_P1_supercell", "to_translational_symmetry"):
+                            part.ev()
+                            part.tr()
+                            cf = xtal.fresh_from_state(xtal.public_state(c))
+                            try:
+                                p = cf.as_P1_supercell(size) if route == "as_P1_supercell" else cf.to_translational_symmetry(supercell=size)
+                            except Exception as e:
+                                part.fail("special-raise:%s" % route, "%s%s raised %r for a special-position molecule in %s" % (route, size, e, key), case)
+                                continue
+                            Y = arrangement(p)
+                            tag = "%s:special-position" % route
+                            n = size[0] * size[1] * size[2]
+                            if len(Y[0]) != n * len(X[0]):
+                                part.fail("count:%s" % tag, "%s%s of %s holds %d atoms, expected %d x %d" % (route, size, key, len(Y[0]), n, len(X[0])), dict(case, size=list(size)))
+                                continue
+                            same_arrangement(part, X, Y, "arrangement:%s" % tag, "%s%s of a molecule on a special position of %s" % (route, size, key), dict(case, size=list(size)))
+                            if abs(float(p.density) - dens) > 1e-9 * dens:
+                                part.fail("density:%s" % tag, "density changes in %s%s" % (route, size), dict(case, size=list(size)))
+                            part.outcome((route, tuple(size), key[0], "special"))
+                    part.nontriv(("special", key, centre, ci, oi, tuple(syms)))
+                    part.state(("special", key, centre, ci, oi, tuple(syms)))
+
+
 def p1_worker(part, job, seed, thorough):
     row, mode = job
     centres = [(0.137, 0.289, 0.611), (0.983, 0.289, 0.017)]
@@ -283,6 +347,7 @@ def run(ctx):
             jobs.append((r, mode))
     jobs.sort(key=lambda j: -len(j[0]["symops"]) * (9 if j[1] == "all_sizes" else 1))
     ctx.pmap(p1_worker, jobs, seed=ctx.seed, thorough=ctx.thorough)
+    special_position_cases(ctx, ctx.seed)
     specs = []
     for n in R_GROUPS:
         for ac in AC:
@@ -293,7 +358,7 @@ def run(ctx):
         specs.append({"asym": "r3c_example", "start": start, "number": 161, "ac": None, "seed_shift": 0.0})
     max_len = 4 if ctx.thorough else 3
     ctx.pmap(trig_worker, specs, max_len=max_len)
-    ctx.rule = ("(a) %d settings x molecular crystals (C04 generator) x supercell sizes x 2 routes (+ rotated-frame deviation); (b) %d trigonal specs "
+    ctx.rule = ("(a) %d settings x molecular crystals (C04 generator) x supercell sizes x 2 routes (+ rotated-frame deviation) + molecules ON special positions (inversion centres, two-fold axes; Z' = 1/2) in 6 settings; (b) %d trigonal specs "
                 "(7 R groups x 3 cells x 3 asymmetric units x 2 starting settings + bundled R3c) x all words over {H,R} up to length %d; "
                 "states = distinct public states reached, transitions = re-expressions executed" % (len(jobs), len(specs), max_len))
     ctx.bounds = {"p1_settings": len(jobs), "sizes": SIZES_DEFAULT, "all_sizes_settings": sum(1 for j in jobs if j[1] == "all_sizes"),
@@ -303,6 +368,9 @@ def run(ctx):
 
 
 def replay(ctx, case):
+    if case.get("kind") == "special":
+        special_position_cases(ctx, 0)
+        return
     if case.get("kind") == "trig":
         # re-run the single word
         spec = case["spec"]
